@@ -234,6 +234,9 @@ struct FileCtx<'a> {
     extra_eff: HashMap<String, String>,
     fname: String,
     ro_violations: Vec<String>,
+    /// field name -> declared type text, for the structs of this file (used to tell a
+    /// `Vec::set_len` from a `File::set_len` when a method effect is name-directed)
+    field_types: HashMap<String, String>,
 }
 
 impl<'a> FileCtx<'a> {
@@ -281,6 +284,8 @@ struct BodyV<'a, 'b> {
     closure_ctx: Vec<String>,
     closure_rewritten: bool,
     closure_depth: usize,
+    /// R8: the call being visited is the operand of `.await`
+    awaited_call: bool,
     call_counts: HashMap<String, usize>,
     calls_seen: Vec<String>,
     claimed_hints: HashSet<usize>,
@@ -767,10 +772,36 @@ impl<'a, 'b, 'ast> Visit<'ast> for BodyV<'a, 'b> {
             start = k - 1;
         }
         self.fc.edit(start, b, "", "R2.await");
+        if let Expr::Call(c) = &*e.base {
+            self.awaited_call = true;
+            self.visit_expr_call(c);
+            self.awaited_call = false;
+            return;
+        }
         visit::visit_expr_await(self, e);
     }
 
     fn visit_expr_call(&mut self, e: &'ast ExprCall) {
+        let awaited = std::mem::replace(&mut self.awaited_call, false);
+        // R8: `spawn_blocking(|| BODY)` -> `spawned({ BODY })`, `spawn_blocking(|| BODY).await` ->
+        // `awaited({ BODY })`: the blocking task's body is evaluated where it is spawned and the
+        // handle holds its value (sequential model of the task; see shims/async_rt.rs)
+        if let Expr::Path(ep) = &*e.func {
+            if ep.path.segments.last().map(|s| s.ident == "spawn_blocking").unwrap_or(false) && e.args.len() == 1 {
+                if let Expr::Closure(c) = &e.args[0] {
+                    if c.inputs.is_empty() && c.asyncness.is_none() {
+                        let whole = range_of(e);
+                        let body = range_of(&*c.body);
+                        let f = if awaited { "awaited" } else { "spawned" };
+                        self.fc.edit(whole.0, body.0, format!("crate::shims::async_std::task::{f}("), "R8.spawn_blocking");
+                        self.fc.edit(body.1, whole.1, ")", "R8.spawn_blocking");
+                        self.note_call("spawn_blocking");
+                        self.visit_expr(&c.body);
+                        return;
+                    }
+                }
+            }
+        }
         // R21: `Pin::new(E)` -> `E`
         if let Expr::Path(ep) = &*e.func {
             let segs: Vec<String> = ep.path.segments.iter().map(|s| s.ident.to_string()).collect();
@@ -913,6 +944,17 @@ impl<'a, 'b, 'ast> Visit<'ast> for BodyV<'a, 'b> {
                 None => (m.clone(), String::new()),
             };
             let mut apply = mode != "none";
+            // a receiver `X.field` whose declared type is a plain in-memory container never
+            // touches the file system, whatever the method is called
+            if let Expr::Field(fe) = &*e.receiver {
+                if let Member::Named(id) = &fe.member {
+                    if let Some(t) = self.fc.field_types.get(&id.to_string()) {
+                        if t.starts_with("Vec<") || t.starts_with("Option<Vec<") || t == "String" || t == "usize" {
+                            apply = false;
+                        }
+                    }
+                }
+            }
             if self.fc.cfg.eff_method_derived.contains(&key) && !self.fc.cfg.method_argc.get(&name).map(|a| a.contains(&e.args.len())).unwrap_or(false) {
                 apply = false;
             }
@@ -1030,6 +1072,13 @@ impl<'a, 'b, 'ast> Visit<'ast> for BodyV<'a, 'b> {
                 let ir = range_of(inner);
                 self.fc.edit(whole.0, ir.0, "(", "R9.unsafe_call");
                 self.fc.edit(ir.1, whole.1, ")", "R9.unsafe_call");
+                self.visit_expr(inner);
+                return;
+            }
+            // `unsafe { CALL; }` (statement form): the block stays, the keyword goes
+            if let Stmt::Expr(inner, Some(_)) = &e.block.stmts[0] {
+                // Verus accepts the block as it is; the callee's contract is an ASSUMED one
+                *self.fc.rule_counts.entry("R9.unsafe_stmt_kept".to_string()).or_insert(0) += 1;
                 self.visit_expr(inner);
                 return;
             }
@@ -1527,6 +1576,7 @@ fn process_fn(
                         closure_ctx: Vec::new(),
                         closure_rewritten: false,
                         closure_depth: 0,
+                        awaited_call: false,
                         call_counts: HashMap::new(),
                         calls_seen: Vec::new(),
                         claimed_hints: HashSet::new(),
@@ -2063,7 +2113,17 @@ fn main() {
                 }
             }
         }
-        let mut fc = FileCtx { cfg: &cfg, src: &src, edits: vec![], rule_counts: BTreeMap::new(), errors: vec![], warnings: vec![], degraded: vec![], extra_eff: extra_eff.clone(), fname: fname.clone(), ro_violations: vec![] };
+        let mut field_types: HashMap<String, String> = HashMap::new();
+        for item in &file.items {
+            if let Item::Struct(st) = item {
+                for f in st.fields.iter() {
+                    if let Some(id) = &f.ident {
+                        field_types.insert(id.to_string(), f.ty.to_token_stream().to_string().replace(' ', ""));
+                    }
+                }
+            }
+        }
+        let mut fc = FileCtx { cfg: &cfg, src: &src, edits: vec![], rule_counts: BTreeMap::new(), errors: vec![], warnings: vec![], degraded: vec![], extra_eff: extra_eff.clone(), fname: fname.clone(), ro_violations: vec![], field_types: field_types.clone() };
         // segments to keep: (start, end, kind, name)
         let mut segs: Vec<(usize, usize, String, String)> = vec![];
         let mut found_units: HashSet<String> = HashSet::new();
@@ -2155,6 +2215,7 @@ fn main() {
                         closure_ctx: Vec::new(),
                         closure_rewritten: false,
                         closure_depth: 0,
+                        awaited_call: false,
                         call_counts: HashMap::new(),
                         calls_seen: Vec::new(),
                         claimed_hints: HashSet::new(),
@@ -2181,6 +2242,9 @@ fn main() {
                                 // functions) can mention them from other modules
                                 if let Some(id) = &f.ident {
                                     let (a, _) = br(id.span());
+                                    make_pub(bv.fc, &f.vis, a);
+                                } else {
+                                    let a = range_of(&f.ty).0;
                                     make_pub(bv.fc, &f.vis, a);
                                 }
                             }
@@ -2335,6 +2399,7 @@ fn main() {
                         closure_ctx: Vec::new(),
                         closure_rewritten: false,
                         closure_depth: 0,
+                        awaited_call: false,
                         call_counts: HashMap::new(),
                         calls_seen: Vec::new(),
                         claimed_hints: HashSet::new(),
